@@ -367,6 +367,7 @@ type ampOpt struct {
 	//   "close_over"  closing primer over the mismatch budget
 	shape      string
 	minBarcode int // added to the drawn barcode length
+	row        int // > 0: the amplicon of the declared PCR sh.Rows[row-1], its tags as declared (0: marker and tags are drawn)
 }
 
 // withinBudget draws a number of primer mismatches the sheet allows.
@@ -384,11 +385,22 @@ func withinBudget(t *rapid.T, label string, sd sideM) int {
 // between flanks, as the forward strand; the caller may reverse-complement it.
 func genAmplicon(t *rapid.T, sh Sheet, ms []markerM, o ampOpt) (string, []string) {
 	var cl []string
-	mi := rapid.IntRange(0, len(ms)-1).Draw(t, "amp_marker")
+	var mi, tagChoice int
+	if o.row > 0 {
+		mi = sh.Rows[o.row-1].Marker
+	} else {
+		mi = rapid.IntRange(0, len(ms)-1).Draw(t, "amp_marker")
+		tagChoice = pick(t, "tag_choice", 0, 0, 0, 0, 0, 0, 1, 1, 2)
+	}
 	m := ms[mi]
 	var ftag, rtag string
-	switch pick(t, "tag_choice", 0, 0, 0, 0, 0, 0, 1, 1, 2) {
+	switch tagChoice {
 	case 0: // a declared sample
+		if o.row > 0 {
+			r := sh.Rows[o.row-1]
+			ftag, rtag = strings.ToLower(r.FTag), strings.ToLower(r.RTag)
+			break
+		}
 		var rowsOf []int
 		for i, r := range sh.Rows {
 			if r.Marker == mi {
@@ -408,7 +420,7 @@ func genAmplicon(t *rapid.T, sh Sheet, ms []markerM, o ampOpt) (string, []string
 	if m.F.Matching != "strict" {
 		tagErrPct = 45
 	}
-	if chance(t, "tag_errors", tagErrPct) {
+	if o.row == 0 && chance(t, "tag_errors", tagErrPct) {
 		cl = append(cl, "tags:with_errors")
 		switch pick(t, "tag_err_side", 0, 1, 2) {
 		case 0:
